@@ -63,6 +63,7 @@ Section IncludesRunner.
     (parse_files canon is_dir is_file read_dir join parent file_name ext_circom starts_dot has_sep content).
   Notation expands := (expands canon is_dir read_dir join ext_circom).
   Notation named := (named canon is_dir read_dir join ext_circom).
+  Notation dirs_revisited := (dirs_revisited canon is_dir read_dir join ext_circom).
   Notation reachable := (reachable canon is_file join parent file_name starts_dot has_sep content).
   Notation add_libraries := (add_libraries canon is_dir ext_circom).
 
@@ -124,14 +125,15 @@ Section IncludesRunner.
 
   (* what the FileLibrary holds, in one statement *)
   Lemma files_characterised dfuel fuel paths libs s :
+    dirs_revisited dfuel paths libs = false ->
     parse_files false dfuel fuel paths libs = Ok s ->
     forall f u, (f, u) ∈ ps_files s <->
                 f ∈ ps_read s /\ content f <> Unreadable /\ (u = true <-> named paths f).
   Proof.
-    intros Hp f u.
+    intros Hno Hp f u.
     pose proof (parse_files_files_inv _ _ _ _ _ _ Hp) as [Q1 Q2].
     pose proof (included_only_files_are_not_user_inputs canon is_dir is_file read_dir join parent file_name
-                  ext_circom starts_dot has_sep content canon_idem _ _ _ _ _ Hp) as [_ F].
+                  ext_circom starts_dot has_sep content canon_idem _ _ _ _ _ Hno Hp) as [_ F].
     split.
     - intros Hf. pose proof (Q2 _ _ Hf). apply elem_of_list_lookup_1 in Hf as (i & Hi).
       destruct (F i f u Hi). done.
@@ -146,6 +148,7 @@ Section IncludesRunner.
   (* ---------------------------------------------------------------- *)
 
   Lemma named_is_user_input dfuel fuel paths libs s c :
+    dirs_revisited dfuel paths libs = false ->
     parse_files false dfuel fuel paths libs = Ok s ->
     named paths c ->
     is_user_input (ps_stack s) c = true /\
@@ -154,11 +157,11 @@ Section IncludesRunner.
     (content c <> Unreadable ->
      exists i, ps_files s !! i = Some (c, true) /\ In (Z.of_nat i) (file_library_user_inputs (ps_files s))).
   Proof.
-    intros Hp Hn.
+    intros Hno Hp Hn.
     pose proof (included_only_files_are_not_user_inputs canon is_dir is_file read_dir join parent file_name
-                  ext_circom starts_dot has_sep content canon_idem _ _ _ _ _ Hp) as [U F].
+                  ext_circom starts_dot has_sep content canon_idem _ _ _ _ _ Hno Hp) as [U F].
     assert (Hr : c ∈ ps_read s).
-    { eapply reads_exactly_reachable; [done|done|]. by apply reach_named. }
+    { eapply reads_exactly_reachable; [done|done|done|]. by apply reach_named. }
     split; [by apply U|]. split; [done|]. split.
     - intros i u Hi. by apply (F i c u Hi).
     - intros Hc. pose proof (parse_files_files_inv _ _ _ _ _ _ Hp) as [Q1 _].
@@ -172,6 +175,7 @@ Section IncludesRunner.
 
   (* the form asked for: p on the command line, not a directory, canon p = Some c *)
   Lemma named_file_is_user_input dfuel fuel paths libs s p c :
+    dirs_revisited dfuel paths libs = false ->
     parse_files false dfuel fuel paths libs = Ok s ->
     p ∈ paths -> is_dir p = false -> canon p = Some c ->
     is_user_input (ps_stack s) c = true /\
@@ -179,7 +183,7 @@ Section IncludesRunner.
     (forall i u, ps_files s !! i = Some (c, u) -> u = true) /\
     (content c <> Unreadable ->
      exists i, ps_files s !! i = Some (c, true) /\ In (Z.of_nat i) (file_library_user_inputs (ps_files s))).
-  Proof. intros Hp H1 H2 H3. eapply named_is_user_input; [done|]. by eapply argument_is_named. Qed.
+  Proof. intros Hno Hp H1 H2 H3. eapply named_is_user_input; [done|done|]. by eapply argument_is_named. Qed.
 
   Lemma named_perm paths paths' c : paths ≡ₚ paths' -> named paths c -> named paths' c.
   Proof. intros P (p & Hp & He). exists p. split; [by rewrite <- P|done]. Qed.
@@ -189,29 +193,31 @@ Section IncludesRunner.
      same user-input predicate; only the numbering of the files may differ *)
   Lemma user_inputs_order_independent dfuel fuel dfuel' fuel' paths paths' libs s s' :
     paths ≡ₚ paths' ->
+    dirs_revisited dfuel paths libs = false ->
+    dirs_revisited dfuel' paths' libs = false ->
     parse_files false dfuel fuel paths libs = Ok s ->
     parse_files false dfuel' fuel' paths' libs = Ok s' ->
     (forall c, c ∈ ps_read s <-> c ∈ ps_read s') /\
     (forall f u, (f, u) ∈ ps_files s <-> (f, u) ∈ ps_files s') /\
     (forall c, is_user_input (ps_stack s) c = is_user_input (ps_stack s') c).
   Proof.
-    intros P H1 H2.
+    intros P Hno1 Hno2 H1 H2.
     assert (N : forall c, named paths c <-> named paths' c).
     { intros c; split; apply named_perm; [done|by symmetry]. }
     assert (R : forall c, c ∈ ps_read s <-> c ∈ ps_read s').
     { intros c.
       rewrite (reads_exactly_reachable canon is_dir is_file read_dir join parent file_name ext_circom
-                 starts_dot has_sep content canon_idem _ _ _ _ _ H1 c).
+                 starts_dot has_sep content canon_idem _ _ _ _ _ Hno1 H1 c).
       rewrite (reads_exactly_reachable canon is_dir is_file read_dir join parent file_name ext_circom
-                 starts_dot has_sep content canon_idem _ _ _ _ _ H2 c).
+                 starts_dot has_sep content canon_idem _ _ _ _ _ Hno2 H2 c).
       split; apply reachable_ext; intros x; apply N. }
     split; [done|]. split.
-    - intros f u. rewrite (files_characterised _ _ _ _ _ H1), (files_characterised _ _ _ _ _ H2), R, N. done.
+    - intros f u. rewrite (files_characterised _ _ _ _ _ Hno1 H1), (files_characterised _ _ _ _ _ Hno2 H2), R, N. done.
     - intros c.
       pose proof (included_only_files_are_not_user_inputs canon is_dir is_file read_dir join parent file_name
-                    ext_circom starts_dot has_sep content canon_idem _ _ _ _ _ H1) as [U1 _].
+                    ext_circom starts_dot has_sep content canon_idem _ _ _ _ _ Hno1 H1) as [U1 _].
       pose proof (included_only_files_are_not_user_inputs canon is_dir is_file read_dir join parent file_name
-                    ext_circom starts_dot has_sep content canon_idem _ _ _ _ _ H2) as [U2 _].
+                    ext_circom starts_dot has_sep content canon_idem _ _ _ _ _ Hno2 H2) as [U2 _].
       specialize (U1 c). specialize (U2 c). specialize (N c).
       destruct (is_user_input (ps_stack s) c), (is_user_input (ps_stack s') c); try done; exfalso.
       + assert (false = true) by tauto. done.
@@ -226,6 +232,7 @@ Section IncludesRunner.
      answers is_user_input = false is filtered, whatever the options, the
      definitions, the analysis order *)
   Lemma included_only_report_never_displayed dfuel fuel paths libs s (r : Runner.report) :
+    dirs_revisited dfuel paths libs = false ->
     parse_files false dfuel fuel paths libs = Ok s ->
     Runner.r_pfiles r <> [] ->
     (forall z, In z (Runner.r_pfiles r) ->
@@ -239,9 +246,9 @@ Section IncludesRunner.
         (forall results rules, Runner.res_sarif (Runner.run_keys p o order) = Some (results, rules) ->
                                ~ In r results)).
   Proof.
-    intros Hp Hne Hall.
+    intros Hno Hp Hne Hall.
     pose proof (included_only_files_are_not_user_inputs canon is_dir is_file read_dir join parent file_name
-                  ext_circom starts_dot has_sep content canon_idem _ _ _ _ _ Hp) as [U F].
+                  ext_circom starts_dot has_sep content canon_idem _ _ _ _ _ Hno Hp) as [U F].
     assert (FF : Runner.filter_by_file r (file_library_user_inputs (ps_files s)) = false).
     { apply RunnerShownFiltered.filter_by_file_false; [done|].
       intros z Hz Hu. destruct (Hall z Hz) as (i & f & u & -> & Hi & Hf).
@@ -258,13 +265,14 @@ Section IncludesRunner.
 
   (* the other direction: a primary label in a named file passes the file filter *)
   Lemma named_file_report_passes_file_filter dfuel fuel paths libs s (r : Runner.report) i f u :
+    dirs_revisited dfuel paths libs = false ->
     parse_files false dfuel fuel paths libs = Ok s ->
     In (Z.of_nat i) (Runner.r_pfiles r) -> ps_files s !! i = Some (f, u) -> named paths f ->
     Runner.filter_by_file r (file_library_user_inputs (ps_files s)) = true.
   Proof.
-    intros Hp Hin Hi Hn.
+    intros Hno Hp Hin Hi Hn.
     pose proof (included_only_files_are_not_user_inputs canon is_dir is_file read_dir join parent file_name
-                  ext_circom starts_dot has_sep content canon_idem _ _ _ _ _ Hp) as [_ F].
+                  ext_circom starts_dot has_sep content canon_idem _ _ _ _ _ Hno Hp) as [_ F].
     apply RunnerShownFiltered.filter_by_file_true. right. exists (Z.of_nat i). split; [done|].
     apply (file_library_user_inputs_flag _ _ _ _ Hi). by apply (F i f u Hi).
   Qed.
@@ -273,6 +281,7 @@ Section IncludesRunner.
      that lives in a named file, and is located nowhere or (also) in a named file *)
   Lemma displayed_findings_come_from_named_files dfuel fuel paths libs s
         (p : Runner.project) o order (r : Runner.report) :
+    dirs_revisited dfuel paths libs = false ->
     parse_files false dfuel fuel paths libs = Ok s ->
     Runner.p_user p = file_library_user_inputs (ps_files s) ->
     RunnerSpec.wf_project p -> RunnerSpec.analysis_order p order ->
@@ -283,9 +292,9 @@ Section IncludesRunner.
     (Runner.r_pfiles r = [] \/
      exists i f, In (Z.of_nat i) (Runner.r_pfiles r) /\ ps_files s !! i = Some (f, true) /\ named paths f).
   Proof.
-    intros Hp Eu Hwf Hord Hin.
+    intros Hno Hp Eu Hwf Hord Hin.
     pose proof (included_only_files_are_not_user_inputs canon is_dir is_file read_dir join parent file_name
-                  ext_circom starts_dot has_sep content canon_idem _ _ _ _ _ Hp) as [_ F].
+                  ext_circom starts_dot has_sep content canon_idem _ _ _ _ _ Hno Hp) as [_ F].
     assert (G : forall z, In z (Runner.p_user p) ->
                           exists i f, z = Z.of_nat i /\ ps_files s !! i = Some (f, true) /\ named paths f).
     { intros z Hz. rewrite Eu in Hz. apply file_library_user_inputs_spec in Hz as (i & f & -> & Hi).
